@@ -26,6 +26,7 @@ EXPLANATION = (
     "walks; attribute statements are applied before dummy arguments are matched; literal masking "
     "precedes case folding. parse_type/line_to_variables decomposition and argument matching are not "
     "decided."
+    ' R5: in parse_type each slot of a character selector (len, kind) is filled at most once and the selector list is split at top-level commas only. R2 also requires every lookup key of the name-keyed attribute tables (attr_dict, param_dict) to be lower-cased, and treats the table content as lower-case only because every value recorded into it is verified to be lower-cased at the recording site.'
 )
 ASSUMPTIONS = ["reference languages in sa/specs/statements.py transcribe F2008 statement syntax with expressions abstracted to parenthesis-free text",
                "extra_vartypes is empty when VARIABLE_RE is instantiated"]
